@@ -327,6 +327,12 @@ def h_get(eng):
             z3.Implies(virt(x), z3.Select(sd.col("dom"), x)),
             z3.Implies(z3.Not(virt(x)), z3.And(z3.Select(sd.col("dom"), x) == z3.Select(z3.Select(A0[".dom"], e), x),
                                                 z3.Implies(z3.Select(sd.col("dom"), x), z3.Select(sd.col(".v"), x) == z3.Select(z3.Select(A0["..v"], e), x))))), "x"))
+        # the virtual fields are those of the state object, also when the entity has an ATTRIBUTE of the same name (a group's
+        # attribute entity_id, a template sensor's last_changed): the virtual field wins
+        ob = eng.oblige(f"{U}/post.virtual-fields-are-those-of-the-state-object", z3.And(*[
+            z3.Select(sd.col(".v"), part_const(y)) == z3.Const(y, ObjS) for y in ("last_updated", "last_changed", "last_reported")]))
+        if ob.status == "refuted":
+            ob.witness = {"signature": "attribute-shadows-virtual-field"}
         eng.oblige(f"{U}/post.snapshot-is-a-copy-not-an-alias", sd.store is not ha)
         # a later write to the entity does not change the captured snapshot
         D0 = (sd.col("dom"), sd.col(".v"))
@@ -352,6 +358,8 @@ def h_get(eng):
 
 def replay_getattr(wj):
     from replay.native import run_native
+    if wj.get("signature") == "attribute-shadows-virtual-field":
+        return run_native("c16_virtual_field_shadow", wj)
     return run_native("c16_getattr_snapshot", wj)
 
 
